@@ -5,6 +5,7 @@ mod engine;
 mod grid;
 mod helpers;
 mod refmath;
+mod scn_incentive;
 mod scn_lair;
 mod scn_pair;
 mod scn_trio;
@@ -40,6 +41,9 @@ fn main() {
                 "C06" => checks::c06::run(&tier, seed),
                 "C07" => checks::c07::run(&tier, seed),
                 "C08" => checks::c08::run(&tier, seed),
+                "C11" => checks::c11::run(&tier, seed),
+                "C12" => checks::c12::run(&tier, seed),
+                "C13" => checks::c13::run(&tier, seed),
                 _ => {
                     eprintln!("unknown property {id}");
                     2
@@ -59,6 +63,9 @@ fn main() {
                 "C06" => checks::c06::replay(&doc),
                 "C07" => checks::c07::replay(&doc),
                 "C08" => checks::c08::replay(&doc),
+                "C11" => checks::c11::replay(&doc),
+                "C12" => checks::c12::replay(&doc),
+                "C13" => checks::c13::replay(&doc),
                 _ => {
                     eprintln!("unknown property in replay file");
                     std::process::exit(2)
